@@ -631,6 +631,63 @@ class Body:
             self._defs = d
         return self._defs
 
+    def reaching_defs(self, local, use_bb):
+        """whole-local definitions of `local` that can reach the *terminator* of use_bb: a definition reaches it when
+        some path from the definition to use_bb passes through no other definition of the same local (definitions in
+        use_bb itself shadow everything earlier; a call's destination is defined on the edge to its successor)."""
+        ds = [x for x in self.defs().get(local, []) if not (x[0] == "stmt" and x[3]["place"]["p"])]
+        if not ds:
+            return []
+        # last definition by statement inside a block
+        in_block = {}
+        for d in ds:
+            if d[0] == "stmt":
+                if d[1] not in in_block or in_block[d[1]][2] < d[2]:
+                    in_block[d[1]] = d
+        term_def = {d[1]: d for d in ds if d[0] in ("call", "yield")}
+        if use_bb in in_block:
+            return [in_block[use_bb]]
+        out = []
+        # walk backwards from use_bb; stop at blocks that define the local
+        seen = set()
+        work = [use_bb]
+        while work:
+            x = work.pop()
+            for p in self.preds()[x]:
+                if p in term_def:
+                    if term_def[p] not in out:
+                        out.append(term_def[p])
+                    continue
+                if p in in_block:
+                    if in_block[p] not in out:
+                        out.append(in_block[p])
+                    continue
+                if p not in seen:
+                    seen.add(p)
+                    work.append(p)
+        if (0 in seen or use_bb == 0) :
+            for d in ds:
+                if d[0] == "arg":
+                    out.append(d)
+        return out
+
+    def def_origin(self, d):
+        """origin of one definition as returned by defs()/reaching_defs()"""
+        if d[0] == "arg":
+            return ("arg", d[1])
+        if d[0] == "call":
+            t = d[2]
+            dd, rd, ga, fn = callee(t)
+            return ("call", dd, rd, [self.origin(a) for a in t["args"]], d[1], ga)
+        if d[0] == "stmt":
+            rv = d[3]["rv"]
+            if rv["k"] == "use":
+                return self.origin(rv["x"])
+            if rv["k"] == "ref":
+                return ("ref", self.origin(rv["place"]))
+            return ("rv", rv["k"])
+        return ("rv", d[0])
+
     def single_def(self, local):
         ds = [x for x in self.defs().get(local, []) if not (x[0] == "stmt" and x[3]["place"]["p"])]
         if len(ds) == 1:
